@@ -247,7 +247,9 @@ class SimB(c07.Sim):
         seen_by_app = list(old.delivered)
         s.c = None
         s.j = None
-        old._journaler = None
+        for k_, v_ in list(vars(old).items()):
+            if v_.__class__.__name__ == "Journaler":
+                setattr(old, k_, None)
         del old
         import gc
         gc.collect()
